@@ -26,11 +26,11 @@ Definition prepass_case (source : str) : string :=
 
 Definition locate_case (source : str) (ps : list N) : string :=
   match expand_o source with
-  | RPanic => "PANIC"
-  | RErr => "EXPERR"
-  | ROk (expanded, origins) =>
+  | PPanicked => "PANIC"
+  | PErr => "EXPERR"
+  | POk (expanded, origins) =>
     match preprocess expanded with
-    | ROk pre =>
+    | POk pre =>
       "O|" ++ (if (400 <? length origins)%nat then str_of_sums origins else join "." (map str_of_N origins)) ++ "|L|"
       ++ join ";" (map (fun p => str_of_loc (in_original source expanded origins pre p)) ps)
     | _ => "PANIC"
